@@ -58,3 +58,25 @@ Proof.
       eapply rs_stop; [exact Hg|exact E2|]. intros s' Hx. discriminate.
 Qed.
 End SchedAll.
+
+(* ------------------------------------------------------------------ the collector on arbitrary worlds *)
+(* The invariant under which the collector's edge relation ([GcProofs.cref] / [vref], with the
+   asymmetries of heap.rs kept) coincides with the natural one on the state, so that the set
+   { a live in W | reach s2 (wf W a) } is closed and a world can be shrunk to it:
+   no heap cell holds VLexPtr / VIp (mark does not follow them from a CELL), no VLexEnv occurs
+   as a VALUE outside a heap cell (mark_vcell does not traverse it), a global slot is a pointer
+   or carries no address and no payload id (only VPtr slots are roots). *)
+Definition no_lexenv (v : vcell) : Prop := forall i, v <> VLexEnv i.
+Definition followed_cell (c : vcell) : Prop := (forall e i, c <> VLexPtr e i) /\ (forall l i, c <> VIp l i).
+Definition slot_ok (v : vcell) : Prop := (exists p, v = VPtr p) \/ (vaddrs v = [] /\ vids v = []).
+Record gc_natural (s : vm) : Prop := {
+  gn_cells : forall a, allocated (hp s) a -> followed_cell (cell_at (hp s) a);
+  gn_acc : no_lexenv (acc s);
+  gn_stack : forall i, i <= sp s -> no_lexenv (sget s i);
+  gn_slots : Forall slot_ok (g_slots s);
+  gn_vecs : forall i l, tget (vecs (st s)) i = Some l -> Forall no_lexenv l;
+  gn_envs : forall i l, tget (envs (st s)) i = Some l -> Forall no_lexenv l;
+  gn_conts : forall i k, tget (conts (st s)) i = Some k -> Forall no_lexenv (k_stack k);
+  gn_lams : forall i l, tget (lams (st s)) i = Some l ->
+              Forall no_lexenv (l_bc l) /\ Forall no_lexenv (l_args l) /\ Forall no_lexenv (map fst (l_envmap l))
+}.
